@@ -190,7 +190,7 @@ func c05Explain(b []byte, e *c05Entry) string {
 		if e.name == "Valid" && (r.R == oracle.RLeadSep || r.R == oracle.RTrailAfterTop) {
 			continue
 		}
-		if r.Scope == "buf" || (r.Scope == "skip" && e.skips) || (e.stream && (r.Scope == "stream" || r.Scope == "skip")) {
+		if r.Scope == "buf" || ((r.Scope == "skip" || r.Scope == "skipnum") && e.skips) || (e.stream && (r.Scope == "stream" || r.Scope == "skip")) {
 			rx = append(rx, rn{r.Name, r.R})
 		}
 	}
